@@ -23,6 +23,9 @@ def jobs(tier, seed):
                  P=dict(p_intjoin=0.3), scheds=2, ctl=dict(req=0.07, crash=0.04, early_render=0.3, max_req=4), name="random-ctl")
     js += batches("conduct", scale(tier, 100, 2000), scale(tier, 20, 100), gen="mix", gseed=seed + 5, P=dict(p_intjoin=0.3),
                   scheds=2, name="free")
+    js += batches("conduct", scale(tier, 100, 2000), scale(tier, 20, 100), gen="mix", gseed=seed + 6, P=dict(p_intjoin=0.3), scheds=2,
+                  ack_chain="lazy", ctl=dict(req=0.15, max_req=4, reqs=["pausing", "paused", "resuming", "running", "canceling"]),
+                  name="lazy-start-with-requests")
     js += batches("ctl_sweep", scale(tier, 40, 600), scale(tier, 4, 20), gen="mix", p_loop=0.2, gseed=seed + 9,
                   P=dict(p_intjoin=0.3, nmax=6), modes=["pause", "cancel"], name="sweep")
     # fail commands with clean-up siblings under pause / cancel at every position
